@@ -1885,7 +1885,9 @@ class MacroExpander:
                             )
                             pre_expanded.append((arg, arg_expansion))
                         else:
-                            pre_expanded.append((arg,))
+                            # Not substituted, but a variadic macro may still
+                            # fold it into __VA_ARGS__.
+                            pre_expanded.append((arg, arg))
                     # Proper expand
                     replacement = macro_lookup.replace(pre_expanded)
                     if isinstance(replacement, list) and len(replacement) > 0:
